@@ -86,6 +86,10 @@ static std::vector<Fn> catalogue() {
     add("C02", "istft(stft)", {V(fill(A.r1, 40, 1); return flat(istft(stft(A.r1, 8), 8));), V(fill(A.r1, 40, 2); return flat(istft(stft(A.r1, 8), 8));),
                                V(fill(A.r1, 40, 1); return flat(istft(stft(A.r1, window::hann(8, false), 6, 8), window::hann(8, false), 6, 8));),
                                V(fill(A.r1, 19, 3); return flat(istft(stft(A.r1, window::hamming(8, false), 4, 8, StftRange::Centered), window::hamming(8, false), 4, 8, StftRange::Centered, OverlapMethod::Ola));)});
+    add("C02", "stft(win,nov,nfft)", {V(fill(A.r1, 60, 1); auto S = stft(A.r1, window::hann(16, false), 8, 32); Out o; for (auto& f : S) o = cat(o, flat(f)); return o;),
+                                      V(fill(A.r1, 60, 1); auto S = stft(A.r1, window::hann(8, false), 4, 32); Out o; for (auto& f : S) o = cat(o, flat(f)); return o;),
+                                      V(fill(A.r1, 60, 1); auto S = stft(A.r1, window::hann(16, false), 12, 32); Out o; for (auto& f : S) o = cat(o, flat(f)); return o;),
+                                      V(fill(A.r1, 60, 1); auto S = stft(A.r1, window::hann(16, false), 8, 32, StftRange::Twosided); Out o; for (auto& f : S) o = cat(o, flat(f)); return o;)});
     // ------------------------------------------------------------------ C07
     add("C07", "FirFilterR(h).process", {V(fill(A.r1, 9, 1); fill(A.r2, 40, 5); FirFilterR f(A.r1); return flat(f.process(A.r2));), V(fill(A.r1, 9, 2); fill(A.r2, 40, 5); FirFilterR f(A.r1); return flat(f.process(A.r2));),
                                          V(fill(A.r1, 9, 2); fill(A.r2, 40, 6); FirFilterR f(A.r1); return flat(f.process(A.r2));), V(fill(A.r1, 8, 3); fill(A.r2, 40, 5); FirFilterR f(A.r1); return flat(f.process(A.r2));)});
@@ -117,6 +121,13 @@ static std::vector<Fn> catalogue() {
     add("C13", "welch(cmplx)", {V(fill(A.c1, 64, 1); return flat(welch(A.c1, 16).pxx);), V(fill(A.c1, 64, 2); return flat(welch(A.c1, 16).pxx);), V(fill(A.c1, 64, 1); return flat(welch(A.c1, 8, 2, 16).pxx);)});
     add("C13", "mscohere", {V(fill(A.r1, 64, 1); fill(A.r2, 64, 2); return flat(mscohere(A.r1, A.r2, 16));), V(fill(A.r1, 64, 1); fill(A.r2, 64, 3); return flat(mscohere(A.r1, A.r2, 16));),
                             V(fill(A.r1, 64, 1); fill(A.r2, 64, 2); return flat(mscohere(A.r1, A.r2, window::hann(16), 4, 16));)});
+    // one parameter at a time: window length at a fixed nfft, overlap, nfft
+    add("C13", "mscohere(win,nov,nfft)", {V(fill(A.r1, 96, 1); fill(A.r2, 96, 2); return flat(mscohere(A.r1, A.r2, window::hann(16), 4, 32));),
+                                          V(fill(A.r1, 96, 1); fill(A.r2, 96, 2); return flat(mscohere(A.r1, A.r2, window::hann(8), 2, 32));),
+                                          V(fill(A.r1, 96, 1); fill(A.r2, 96, 2); return flat(mscohere(A.r1, A.r2, window::hann(16), 8, 32));),
+                                          V(fill(A.r1, 96, 1); fill(A.r2, 96, 2); return flat(mscohere(A.r1, A.r2, window::hann(16), 4, 16));)});
+    add("C13", "welch(win,nov,nfft)", {V(fill(A.r1, 96, 1); return flat(welch(A.r1, window::hann(16), 4, 32).pxx);), V(fill(A.r1, 96, 1); return flat(welch(A.r1, window::hann(8), 2, 32).pxx);),
+                                       V(fill(A.r1, 96, 1); return flat(welch(A.r1, window::hamming(16), 4, 32).pxx);), V(fill(A.c1, 96, 1); return flat(welch(A.c1, window::hann(8), 2, 32).pxx);)});
     // ------------------------------------------------------------------ C14
     add("C14", "hilbert", {V(fill(A.r1, 24, 1); return flat(hilbert(A.r1));), V(fill(A.r1, 24, 2); return flat(hilbert(A.r1));), V(fill(A.r1, 24, 1); return flat(hilbert(A.r1, 25));),
                            V(fill(A.r1, 25, 1); return flat(hilbert(A.r1, 24));)});
